@@ -13,7 +13,7 @@ pub(crate) fn small(tx_packet_base: u32, rx_packet_base: u32, tx_frame_base: u32
         resend_queue: resend_queue::ResendQueue::new(),
         frame_queue: frame_queue::FrameQueue::new(4, 4, tx_frame_base),
         packet_receiver: packet_receiver::verif_packet_receiver::small(rx_packet_base, 1448 * 4),
-        frame_ack_queue: frame_ack_queue::FrameAckQueue::new(8, rx_frame_base),
+        frame_ack_queue: frame_ack_queue::FrameAckQueue::new(64, rx_frame_base),
         send_rate_comp: send_rate::SendRateComp::new(1_000_000),
         now_ms: 0, rtt_ms: 0, rto_ms: 0,
         time_base: crate::verif_env::fake_instant(),
@@ -165,7 +165,7 @@ fn o11_2_ack_emission_two_groups() { ack_emission(2); }
 
 //@h props=C03,C11,C02 tier=quick timeout=1200 role=sync-input
 //@fn HalfConnection::handle_sync_frame, FrameAckQueue::resynchronize, PacketReceiver::resynchronize
-//@bound fresh small connection (rx packet base 2^20-2, rx frame base 2^32-3, frame window 8); ONE sync frame whose two optional ids are ANY u32
+//@bound fresh small connection (rx packet base 2^20-2, rx frame base 2^32-3, frame window 64); ONE sync frame whose two optional ids are ANY u32
 #[kani::proof]
 #[kani::unwind(7)]
 fn o3_9_sync_frame_any_ids() {
@@ -176,7 +176,7 @@ fn o3_9_sync_frame_any_ids() {
     assert!(hc.sync_reply, "[C11] every sync frame is answered with an ack");
     let fb = hc.frame_ack_queue.base_id();
     match nf {
-        Some(id) if id.wrapping_sub(0xFFFF_FFFD) >= 1 && id.wrapping_sub(0xFFFF_FFFD) <= 8 => assert!(fb == id, "[C11] frame window resynchronised"),
+        Some(id) if id.wrapping_sub(0xFFFF_FFFD) >= 1 && id.wrapping_sub(0xFFFF_FFFD) <= 64 => assert!(fb == id, "[C11] frame window resynchronised"),
         _ => assert!(fb == 0xFFFF_FFFD, "[C03] other ids leave the frame window alone"),
     }
     let pb = hc.packet_receiver.base_id();
@@ -187,11 +187,11 @@ fn o3_9_sync_frame_any_ids() {
     std::mem::forget(hc);
 }
 
-//@h props=C03,C15 tier=quick timeout=1500 role=ack-input
+//@h props=C03,C15 tier=quick timeout=1500 role=ack-input unwindset=FrameQueue17acknowledge_group.0:34
 //@fn HalfConnection::handle_ack_frame, FrameQueue::{acknowledge_group, advance_transfer_window}, PacketSender::acknowledge
 //@bound fresh small connection (nothing sent; tx bases at the wrap); ONE ack frame with both window bases ANY u32 and one ack group of shape bitfield=0b1 with base and nonce any
 #[kani::proof]
-#[kani::unwind(34)]
+#[kani::unwind(7)]
 fn o3_9_ack_frame_any_ids_fresh_connection() {
     let mut hc = small(0xFFFFF, 0, 0xFFFF_FFFF, 0, None);
     let g = frame::AckGroup { base_id: kani::any(), bitfield: 1, nonce: kani::any() };
@@ -204,7 +204,7 @@ fn o3_9_ack_frame_any_ids_fresh_connection() {
 
 //@h props=C01,C03 tier=quick timeout=1500 role=data-gate
 //@fn HalfConnection::{handle_data_frame, receive}, FrameAckQueue::{window_contains, mark_seen}, PacketReceiver::{handle_datagram, receive}
-//@bound fresh small connection (rx frame base 2^32-3, frame window 8; rx packet base 2^20-1); ONE data frame with ANY frame id carrying one deliverable 2-byte packet, then the SAME frame again (network duplicate), then receive()
+//@bound fresh small connection (rx frame base 2^32-3, frame window 64; rx packet base 2^20-1); ONE data frame with ANY frame id carrying one deliverable 2-byte packet, then the SAME frame again (network duplicate), then receive()
 #[kani::proof]
 #[kani::unwind(7)]
 fn o1_3_data_frame_gate_and_duplicate() {
@@ -217,7 +217,7 @@ fn o1_3_data_frame_gate_and_duplicate() {
     hc.handle_data_frame(f2);
     let mut log = packet_receiver::verif_packet_receiver::LogSink::new();
     hc.receive(&mut log);
-    let inside = id.wrapping_sub(0xFFFF_FFFD) < 8;
+    let inside = id.wrapping_sub(0xFFFF_FFFD) < 64;
     if inside {
         assert!(log.n == 1 && log.val[0] == 42, "[C01] a frame inside the frame window is processed once, a network duplicate is not processed again");
         assert!(hc.frame_ack_queue.base_id() == id.wrapping_add(1));
